@@ -14,6 +14,9 @@ def run_units(ctx, proofs_ok, only=None):
     only = only or only_units()
     if only:
         names = [n for n in names if n.split("_", 1)[1] in only]
+    else:
+        from vt.common import disabled_units
+        names = [n for n in names if n.split("_", 1)[1] not in disabled_units()]
     for n in names:
         unit = n.split("_", 1)[1]
         t0 = time.time()
